@@ -60,14 +60,9 @@ def run(ctx):
         cs = F.dominating_conds(tc, bb)
         t_ok = w_ok = False
         for c in cs:
-            if c.kind != 'cmp':
-                continue
-            l, r = c.lhs.show(), c.rhs.show()
-            if l.endswith('.tokens') and c.op == 'Ge' and c.rhs.const_value() is not None and c.rhs.const_value() >= 1.0:
+            if L.cmp_is(c, L.ends('.tokens'), 'Ge', lambda e: e.const_value() is not None and e.const_value() >= 1.0):
                 t_ok = True
-            if l.endswith('.requests_in_window') and c.op == 'Lt' and r.endswith('.max_requests'):
-                w_ok = True
-            if r.endswith('.requests_in_window') and c.op == 'Gt' and l.endswith('.max_requests'):
+            if L.cmp_is(c, L.ends('.requests_in_window'), 'Lt', L.ends('.max_requests')):
                 w_ok = True
         return t_ok, w_ok
 
@@ -82,10 +77,9 @@ def run(ctx):
     fails = []
     for nnode, e in tc.edge_nodes().items():
         c = F.edge_cond(tc, e)
-        if c.kind == 'cmp':
-            l, r = c.lhs.show(), c.rhs.show()
-            if (l.endswith('.tokens') and c.op == 'Lt') or (l.endswith('.requests_in_window') and c.op == 'Ge' and r.endswith('.max_requests')):
-                fails.append(nnode)
+        if L.cmp_is(c, L.ends('.tokens'), 'Lt', lambda e: e.const_value() is not None) or \
+                L.cmp_is(c, L.ends('.requests_in_window'), 'Ge', L.ends('.max_requests')):
+            fails.append(nnode)
     wblocks = set(bi for b, bi, k, th in writes_tok + writes_win if b.id == tc.id and k != 'aggregate')
     reach = tc.reachable_from(fails) if fails else set()
     bad = sorted(reach & wblocks)
